@@ -77,6 +77,33 @@ func refB5(files map[string][]byte, depDigests []string) string {
 	return "b5:" + shake([]byte(strings.Join(append([]string{filesDigest}, deps...), "\n")))
 }
 
+// refB4 is the legacy digest: one manifest over the module files and the v1 buf.yaml / buf.lock
+// objects (named by their file names), hashed once; dependencies do not enter it.
+func refB4(files map[string][]byte, bufYAML, bufLock []byte) string {
+	all := map[string][]byte{}
+	for p, c := range files {
+		if isModuleFile(p, files) {
+			all[p] = c
+		}
+	}
+	if bufYAML != nil {
+		all["buf.yaml"] = bufYAML
+	}
+	if bufLock != nil {
+		all["buf.lock"] = bufLock
+	}
+	var paths []string
+	for p := range all {
+		paths = append(paths, p)
+	}
+	sort.Strings(paths)
+	var b strings.Builder
+	for _, p := range paths {
+		b.WriteString("shake256:" + shake(all[p]) + "  " + p + "\n")
+	}
+	return "shake256:" + shake([]byte(b.String()))
+}
+
 // ---- workload ----
 
 type mod struct {
@@ -84,6 +111,8 @@ type mod struct {
 	commit uuid.UUID
 	files  map[string][]byte
 	deps   []int
+	// v1 object data (enters the b4 digest only)
+	bufYAML, bufLock []byte
 }
 
 type dsim struct {
@@ -93,6 +122,7 @@ type dsim struct {
 	mods []*mod
 	n    int
 	counters map[string]int
+	lastB4   string
 	faults   bool
 	frate    int
 	fbudget  int
@@ -158,6 +188,12 @@ func (m *dsim) drawModules() {
 		// a module may vendor a well-known type; modules importing it then depend on this module
 		if i == 0 && n > 1 && m.tp.Draw("d.vendorwkt", 3) == 2 {
 			md.files["google/protobuf/timestamp.proto"] = []byte(fmt.Sprintf("syntax = \"proto3\";\npackage google.protobuf;\n// vendored %d\nmessage Timestamp { int64 seconds = 1; int32 nanos = 2; }\n", m.tp.Draw("d.nonce", 1000)))
+		}
+		if m.tp.Draw("d.v1yaml", 3) != 0 {
+			md.bufYAML = []byte(fmt.Sprintf("version: v1\nname: %s\n# %d\n", md.name, m.tp.Draw("d.nonce", 1000)))
+		}
+		if m.tp.Draw("d.v1lock", 3) != 0 {
+			md.bufLock = []byte(fmt.Sprintf("version: v1\n# %d\n", m.tp.Draw("d.nonce", 1000)))
 		}
 		for _, extra := range []string{"LICENSE", "buf.md", "README.md", "README.markdown"} {
 			if m.tp.Draw("d.extra", 3) == 1 {
@@ -333,6 +369,20 @@ func (m *dsim) digests(ctx context.Context, c cfg, override map[int]map[string][
 			opts = append(opts, bufmodule.LocalModuleWithFullNameAndCommitID(fn, md.commit))
 		}
 		// dependency modules are always targeted; a lone module has to be (a module set needs one target)
+		if md.bufYAML != nil {
+			od, err := bufmodule.NewObjectData("buf.yaml", md.bufYAML)
+			if err != nil {
+				panic(err)
+			}
+			opts = append(opts, bufmodule.LocalModuleWithV1Beta1OrV1BufYAMLObjectData(od))
+		}
+		if md.bufLock != nil {
+			od, err := bufmodule.NewObjectData("buf.lock", md.bufLock)
+			if err != nil {
+				panic(err)
+			}
+			opts = append(opts, bufmodule.LocalModuleWithV1Beta1OrV1BufLockObjectData(od))
+		}
 		builder.AddLocalModule(bucket, fmt.Sprintf("bucket-%d", i), c.targeted || i != len(m.mods)-1 || len(m.mods) == 1, opts...)
 	}
 	moduleSet, err := builder.Build()
@@ -350,6 +400,13 @@ func (m *dsim) digests(ctx context.Context, c cfg, override map[int]map[string][
 			return nil, err
 		}
 		out[idx] = d.String()
+		if idx == len(m.mods)-1 {
+			d4, err := mod.Digest(bufmodule.DigestTypeB4)
+			if err != nil {
+				return nil, err
+			}
+			m.lastB4 = d4.String()
+		}
 	}
 	return out, nil
 }
@@ -434,6 +491,9 @@ func Run(tp *tape.Tape, env *engine.Env) *engine.Outcome {
 				s.Probe("digest-failed-under-fault")
 			}
 			continue
+		}
+		if want4 := refB4(m.mods[main].files, m.mods[main].bufYAML, m.mods[main].bufLock); m.lastB4 != want4 {
+			m.violate("digest-equals-published-construction", "b4|"+c.backend, "module %d under %s (faults fired: %d): b4 digest %s, reference %s", main, c, fired, m.lastB4, want4)
 		}
 		for i := range m.mods {
 			if got[i] != ref[i] {
